@@ -65,6 +65,8 @@ def validate_time_x(x, times=None, n_features=None, cast_scalar=False):
     if cast_scalar and times is not None:
         if not isscalar(times):
             # array-likes (lists, column vectors, one-element arrays of any rank)
+            if hasattr(times, "todense"):
+                times = times.todense()
             times = asarray(times, dtype=float)
             if times.size == 1:
                 times = times.reshape(())
